@@ -85,8 +85,7 @@ def cxSched : List Tid := [0, 0, 1, 1, 1, 1, 1, 0]
 
 theorem right_stream_counterexample : ¬ right_stream_full := by
   intro h
-  have hsome : (Sys.runStrict (sys cxProgs) (sys cxProgs).init cxSched).isSome = true := by decide
-  have hr := Sys.reachable_of_run (sys cxProgs) cxSched hsome
+  have hr := Sys.reachable_run (sys cxProgs) .init cxSched
   have h1 := (h cxProgs _ hr).1 1 0 0 ⟨0, false⟩ 1 (by decide)
   revert h1; decide
 
@@ -116,8 +115,7 @@ def cxProgs : Tid → List Op
     through the reversed key: `panic("FIXME: other dir added in the meantime...")`. -/
 theorem no_panic_upstream_counterexample : ¬ no_panic_upstream_full := by
   intro h
-  have hsome : (Sys.runStrict (sys false cxProgs) (sys false cxProgs).init [0, 1, 0, 1]).isSome = true := by decide
-  have hr := Sys.reachable_of_run (sys false cxProgs) [0, 1, 0, 1] hsome
+  have hr := Sys.reachable_run (sys false cxProgs) .init [0, 1, 0, 1]
   have h1 := h cxProgs _ hr 1
   revert h1; decide
 
@@ -181,8 +179,7 @@ def cx2Sched : List Tid := [0, 0, 0, 0, 1, 0, 0, 0, 0, 0, 1]
 
 theorem right_stream_counterexample : ¬ right_stream_full := by
   intro h
-  have hsome : (Sys.runStrict (sys true cx2Progs) (sys true cx2Progs).init cx2Sched).isSome = true := by decide
-  have hr := Sys.reachable_of_run (sys true cx2Progs) cx2Sched hsome
+  have hr := Sys.reachable_run (sys true cx2Progs) .init cx2Sched
   have h1 := (h cx2Progs _ hr).1 1 1 0 ⟨0, false⟩ 1 (by decide)
   revert h1; decide
 
